@@ -245,7 +245,9 @@ class Prop(Check):
     THEOREMS = ["Cli.C30_args", "Cli.C30_args_each", "Cli.C30_args_value", "Cli.C30_args_pinned_false",
                 "Cli.C30_validate", "Cli.C30_validate_pinned_false", "Cli.C30_generate_reject",
                 "Cli.C30_generate_faithful", "Cli.C30_generate_calls", "Cli.C30_exit", "Cli.C30_exit_located",
-                "Cli.C30_check_mode"]
+                "Cli.C30_check_mode", "Cli.C30_args_all_lines", "Cli.C30_validate_error", "Cli.C30_generate_stops",
+                "Cli.C30_generate_reject_selected", "Cli.C30_generate_located", "Cli.C30_check",
+                "Cli.C30_check_located"]
     DRIVER = "Drivers/Cli.lean"
     PROCS_THOROUGH = 4
     QUICK_CASES = 390   # + corpus < 400: one Lean driver process
